@@ -148,6 +148,7 @@ def run_case(case, ctx):
     if compiled:
         D = compiler.compile(D)
     src = list(A.__fields__)
+    bystander = [None]
     i = 0
     commits = 0
     kinds_before = None
@@ -161,13 +162,39 @@ def run_case(case, ctx):
             D.add_field(f.name, t, bits=f.bits)
 
         if block:
+            # ANOTHER structure has its own batch open at the same time (either one may end first): batches of different
+            # structures do not share staging state
+            if bystander[0] is None:
+                bystander[0] = make("Bystander", [], align=align)
+                if compiled:
+                    bystander[0] = compiler.compile(bystander[0])
+            B = bystander[0]
+
             def run_block():
-                with D.start_update():
-                    for f in batch:
-                        add(f)
+                nb = len(B.__fields__)
+                if commits % 2:
+                    with D.start_update(), B.start_update():
+                        B.add_field(f"b{nb}", cs.uint16)
+                        for f in batch:
+                            add(f)
+                        B.add_field(f"b{nb + 1}", cs.uint8)
+                else:
+                    with B.start_update(), D.start_update():
+                        for f in batch:
+                            add(f)
+                        B.add_field(f"b{nb}", cs.uint16)
+                        B.add_field(f"b{nb + 1}", cs.uint8)
 
             r = lib(run_block)
             commits += 1
+            if not isinstance(r, Err):
+                want_b = [("b%d" % j, "uint16" if j % 2 == 0 else "uint8") for j in range(len(B.__fields__))]
+                got_b = [(f_._name, f_.type.__name__) for f_ in B.__fields__]
+                nbf = len(got_b)
+                BP = make("BystanderOneShot", [m.Field(n_, getattr(cs, t_)) for n_, t_ in want_b], align=align)
+                if nbf % 2 or got_b != want_b or _layout(BP) != _layout(B) or len(B(bytes(64)).dumps()) != BP.size:
+                    raise Violation("stale-intermediate-state", f"a second structure extended in a start_update() batch open at the same time has members {got_b} (layout {_layout(B)}), expected {want_b} (layout {_layout(BP)}): {desc()}")
+                ctx.count("simultaneous-batches-on-two-structures")
         else:
             r = None
             for f in batch:
